@@ -324,8 +324,8 @@ pub fn main(args: &Args) -> i32 {
             let plan = SchedPlan {
                 bounds: match (quick, n) {
                     (true, 0..=2) => vec![None],
-                    (true, 3) => vec![Some(3)],
-                    (true, _) => vec![Some(2)],
+                    (true, 3) => vec![Some(4)],
+                    (true, _) => vec![Some(3)],
                     (false, 0..=3) => vec![None],
                     (false, _) => vec![Some(4)],
                 },
@@ -345,7 +345,7 @@ pub fn main(args: &Args) -> i32 {
     for spawn in [true, false] {
         for extra_clone in [false, true] {
             let plan = SchedPlan {
-                bounds: if quick { vec![Some(4)] } else { vec![None] },
+                bounds: if quick { vec![Some(6)] } else { vec![None] },
                 max_execs: 20_000_000,
                 time_budget_s: args.tier.pick(120.0, 900.0),
             };
